@@ -160,3 +160,84 @@ Definition disc_ok (i : disc_in) (o : disc_out) : bool :=
 Definition disc_known (i : disc_in) : N := 0%N.
 
 Definition disc_judge := judge disc_model (res_eqb (pair_eqb dcons_eqb Bool.eqb)) disc_ok disc_known.
+
+(* ================= part plug: commit.Plugin.ValidateObservation + Plugin.Outcome with discovery enabled ================= *)
+Require Import Verif.Model.CommitMerkle.
+(* observation of the plugin: merkle-root part, discovery part, top-level fChain (price parts empty)
+   input: (fresh instance?, F, dest, MaxMerkleTreeSize, roles, known, observations)
+   output: (verdicts, Ok (merkle outcome: type, ranges, off-ramp next, RMN config id; Sync argument) / Err) *)
+Definition plug_obs := (obs * dobs * list (N * Z))%type.
+Definition plug_in := (bool * Z * N * N * roles_t * list N * list (N * plug_obs))%type.
+Definition mro := (N * list (N * (N * N)) * list (N * N) * option N)%type.
+Definition plug_out := (list bool * res (mro * dcons))%type.
+
+Definition plug_validate (roles : roles_t) (known : list N) (dest : N) (ao : N * plug_obs) : bool :=
+  let '(o, (mo, dob, topf)) := ao in
+  forallb (fun e => Z.ltb 0 (snd e)) topf &&
+  validate_obs false roles known dest (o, mo) &&
+  disc_validate roles known dest (o, dob).
+
+(* merkleroot getOutcome in the state after an empty previous outcome: reportRangesOutcome *)
+Definition mro_of (dest maxsize : N) (r : res cons) : mro :=
+  match r with
+  | Ok c =>
+      let '(rs, os) := report_ranges (c_onramp c) (c_offramp c) maxsize in
+      (1%N, rs, os, alookup dest (c_rmn c))
+  | _ => (0%N, [], [], None)
+  end.
+
+Definition plug_model (i : plug_in) : plug_out :=
+  let '(fresh, F, dest, maxsize, roles, known, aos) := i in
+  let vs := map (plug_validate roles known dest) aos in
+  let acc := select vs aos in
+  (vs, Ok (mro_of dest maxsize (get_consensus F dest (map (fun ao => (fst ao, fst (fst (snd ao)))) acc)),
+           dcons_sort (discovery_outcome F dest (map (fun ao => (fst ao, snd (fst (snd ao)))) acc)))).
+
+Definition mro_eqb (a b : mro) : bool :=
+  let '(t1, r1, o1, c1) := a in let '(t2, r2, o2, c2) := b in
+  N.eqb t1 t2 && kv_eqb (pair_eqb N.eqb N.eqb) r1 r2 && kv_eqb N.eqb o1 o2 && option_eqb N.eqb c1 c2.
+Definition plug_oeqb (a b : plug_out) : bool :=
+  list_eqb Bool.eqb (fst a) (fst b) && res_eqb (pair_eqb mro_eqb dcons_eqb) (snd a) (snd b).
+
+(* consensus observation prescribed by the statement: per key the unique value with enough DISTINCT reporters *)
+Definition spec_map {O V} (e : V -> V -> bool) (get : O -> list (N * V)) (aos : list (N * O)) (thr_of : N -> option N)
+  : list (N * V) :=
+  flat_map (fun k => match prescribed e get aos thr_of k with Some v => [(k, v)] | None => [] end)
+           (sortN (keys_of get aos)).
+Definition spec_cons (F : Z) (dest : N) (acc : list aobs) : res cons :=
+  let fch := spec_map Z.eqb fchain_kv acc (fun _ : N => Some (two_f_plus_1 F)) in
+  match alookup dest fch with
+  | None => Err
+  | Some _ =>
+      let thr := thr_2f1 fch in
+      Ok (mkCons (spec_map root_eqb roots_kv acc thr) (spec_map N.eqb onramp_kv acc thr)
+                 (spec_map N.eqb offramp_kv acc thr) (spec_map N.eqb (rmn_kv dest) acc thr) fch)
+  end.
+
+(* the property: verdicts are those of the validation rules (an implementation that lets more through is a violation),
+   and what the outcome holds is what 2f+1 distinct validated reporters agree on - whatever the instance's state *)
+Definition plug_ok (i : plug_in) (o : plug_out) : bool :=
+  let '(fresh, F, dest, maxsize, roles, known, aos) := i in
+  let vs := map (plug_validate roles known dest) aos in
+  let acc := select vs aos in
+  nodupb N.eqb (map fst aos) &&
+  list_eqb Bool.eqb (fst o) vs &&
+  forallb (fun ao => one_vote_ok roles dest (fst ao, fst (fst (snd ao)))) acc &&
+  match snd o with
+  | Ok (m, d) =>
+      mro_eqb m (mro_of dest maxsize (spec_cons F dest (map (fun ao => (fst ao, fst (fst (snd ao)))) acc))) &&
+      disc_ok (F, dest, false, map (fun ao => (fst ao, snd (fst (snd ao)))) acc) (Ok (d, false))
+  | _ => false
+  end.
+Definition plug_judge := judge plug_model plug_oeqb plug_ok (fun _ => 0%N).
+
+(* ================= commit.Plugin.ObservationQuorum ================= *)
+(* input (N, F, number of attributed observations); the commit plugin asks for 2F+1 observations.
+   None of the C01 theorems assumes a quorum: they hold for every list of validated observations; the quorum only
+   decides whether Outcome is called at all. *)
+Definition quorum_model (i : Z * Z * Z) : bool := let '(n, f, cnt) := i in Z.leb (2 * f + 1) cnt.
+Definition quorum_judge := judge quorum_model Bool.eqb (fun i o => Bool.eqb o (quorum_model i)) (fun _ => 0%N).
+
+(* typed constructor for the harness output *)
+Definition plug_res (t : N) (rs : list (N * (N * N))) (os : list (N * N)) (rmn : option N) (d : dcons)
+  : res (mro * dcons) := Ok ((t, rs, os, rmn), d).
